@@ -70,6 +70,7 @@ Theorem corr_implies_market_oracle : forall c r, corr_b c = true -> In r (c_runs
   end.
 Proof.
   intros c r Hc Hin. unfold corr_b in Hc. apply andb_true_iff in Hc. destruct Hc as [Hc _].
+  apply andb_true_iff in Hc. destruct Hc as [_ Hc].
   rewrite forallb_forall in Hc.
   pose proof (corr_run_markets _ _ _ (Hc r Hin)) as H.
   destruct (c_fatal c).
